@@ -706,6 +706,11 @@ func (m *Composite) UnsetSubfield(id string) {
 	m.mu.Lock()
 	defer m.mu.Unlock()
 
+	m.unsetSubfield(id)
+}
+
+// unsetSubfield assumes that the mutex is already locked by the caller.
+func (m *Composite) unsetSubfield(id string) {
 	// unset the field
 	delete(m.setSubfields, id)
 
@@ -718,6 +723,9 @@ func (m *Composite) UnsetSubfield(id string) {
 // "a.b.c". This effectively removes the subfields' values and excludes them from
 // operations like Pack() or Marshal().
 func (m *Composite) UnsetSubfields(idPaths ...string) error {
+	m.mu.Lock()
+	defer m.mu.Unlock()
+
 	for _, idPath := range idPaths {
 		if idPath == "" {
 			continue
@@ -727,7 +735,7 @@ func (m *Composite) UnsetSubfields(idPaths ...string) error {
 
 		if _, ok := m.setSubfields[id]; ok {
 			if len(path) == 0 {
-				m.UnsetSubfield(id)
+				m.unsetSubfield(id)
 				continue
 			}
 
